@@ -36,6 +36,8 @@ type c11cfg struct {
 	bound   int
 	partial bool
 	strict  bool // deviation = any non-default scheduling decision (many threads)
+	readers int  // reader threads per accepted connection (0 = 1); with more than one the order of the log is not judged
+	reads   int  // Reads per reader thread (0 = until the connection fails): a reader that stops cannot cover for one that was never woken
 }
 
 func (c c11cfg) name() string {
@@ -51,6 +53,12 @@ func (c c11cfg) name() string {
 	}
 	if c.closer2 {
 		s += " +second-concurrent-Close"
+	}
+	if c.readers > 1 {
+		s += fmt.Sprintf(" readers-per-conn=%d", c.readers)
+		if c.reads > 0 {
+			s += fmt.Sprintf(" x%d-reads-each", c.reads)
+		}
 	}
 	if c.strict {
 		s += " [strict deviations]"
@@ -138,16 +146,22 @@ func c11scenario(c c11cfg) *explore.Scenario {
 						firstGen[name] = lg.gen
 					}
 					logs = append(logs, lg)
-					zzvsched.GoNamed("reader-"+name, func() {
-						for {
-							buf := make([]byte, 64)
-							n, err := cn.Read(buf)
-							if err != nil {
-								return
+					nr := c.readers
+					if nr < 1 {
+						nr = 1
+					}
+					for ri := 0; ri < nr; ri++ {
+						zzvsched.GoNamed(fmt.Sprintf("reader%d-%s", ri, name), func() {
+							for k := 0; c.reads == 0 || k < c.reads; k++ {
+								buf := make([]byte, 64)
+								n, err := cn.Read(buf)
+								if err != nil {
+									return
+								}
+								lg.got = append(lg.got, string(buf[:n]))
 							}
-							lg.got = append(lg.got, string(buf[:n]))
-						}
-					})
+						})
+					}
 					if c.closer2 && !closedOnce && name == c.remotes[0] {
 						zzvsched.GoNamed("closer2", func() {
 							if !closeBegun {
@@ -256,7 +270,7 @@ func c11scenario(c c11cfg) *explore.Scenario {
 					if k < 0 {
 						return out, &explore.Violation{Sig: "C11 invented", Msg: c.name() + fmt.Sprintf(": %q was never sent", p)}
 					}
-					if k <= idx {
+					if k <= idx && c.readers <= 1 {
 						return out, &explore.Violation{Sig: "C11 reordered", Msg: c.name() + fmt.Sprintf(": remote %s's datagrams were read as %v, sent as %v", r, got, injected[r])}
 					}
 					idx = k
@@ -278,7 +292,15 @@ func c11scenario(c c11cfg) *explore.Scenario {
 					if c.filter {
 						want = want[1:] // the "-0" datagram is refused while the remote is unknown
 					}
-					if fmt.Sprint(perRemote[r]) != fmt.Sprint(want) && !(len(want) == 0 && len(perRemote[r]) == 0) {
+					gotR := perRemote[r]
+					if c.readers > 1 {
+						// several readers of one connection append to the log in the order they return, not the order they were served
+						gotR = append([]string(nil), gotR...)
+						sort.Strings(gotR)
+						want = append([]string(nil), want...)
+						sort.Strings(want)
+					}
+					if fmt.Sprint(gotR) != fmt.Sprint(want) && !(len(want) == 0 && len(gotR) == 0) {
 						return out, &explore.Violation{Sig: "C11 lost", Msg: c.name() + fmt.Sprintf(": remote %s sent %v, its connection delivered %v (expected %v); all reads: %s", r, injected[r], perRemote[r], want, out)}
 					}
 				}
@@ -806,6 +828,13 @@ func init() {
 				// one remote keeps sending while its connection is being closed (few threads: a deeper bound is affordable)
 				{remotes: []string{"a1"}, per: 3, backlog: 128, closer: true, bound: sb + 1, strict: true},
 				{remotes: []string{"a1"}, per: 1, backlog: 128, closer: true, closer2: true, bound: sb, strict: true},
+				// two readers blocked on one connection: every datagram that arrives must reach one of them
+				// (the wake-up has to be passed on while datagrams remain)
+				{remotes: []string{"a1"}, per: 3, backlog: 128, readers: 2, bound: sb + 1, strict: true},
+				{remotes: []string{"a1", "a2"}, per: 2, backlog: 128, readers: 2, bound: sb, strict: true},
+				// ... and each reader takes exactly one datagram, so that neither can drain the queue for the other
+				{remotes: []string{"a1"}, per: 2, backlog: 128, readers: 2, reads: 1, bound: sb + 1, strict: true},
+				{remotes: []string{"a1"}, per: 3, backlog: 128, readers: 3, reads: 1, bound: sb, strict: true},
 			}
 			if tier == "thorough" {
 				cfgs = append(cfgs,
@@ -825,7 +854,7 @@ func init() {
 			out = append(out, c11full())
 			return out
 		},
-		Rule:        "one remote sending every script of 5 (thorough 7) steps over {datagrams of 1000/1020/1021/1023/1 bytes, Read} so that unread datagrams fill the connection's receive ring to the byte; datagrams of 8191 and 8192 bytes (the receive buffer's size) as first datagram of a new remote and in a row from a known one; remotes {10.0.0.1:15, 10.0.0.1:16, 10.0.0.11:5} (same IP / different port, and texts that collide without the separator) injecting 1-2 tagged datagrams each from their own threads, an accepter thread, one reader thread per accepted connection, optionally closing a connection (also from two threads at once) and sending again; backlog {1,2,128}, accept filter {none, reject-first}, batch read {off,2,3 with partial batches}; every interleaving within the deviation bound over the scheduler-visible fake socket",
+		Rule:        "one remote sending every script of 5 (thorough 7) steps over {datagrams of 1000/1020/1021/1023/1 bytes, Read} so that unread datagrams fill the connection's receive ring to the byte; datagrams of 8191 and 8192 bytes (the receive buffer's size) as first datagram of a new remote and in a row from a known one; remotes {10.0.0.1:15, 10.0.0.1:16, 10.0.0.11:5} (same IP / different port, and texts that collide without the separator) injecting 1-2 tagged datagrams each from their own threads, an accepter thread, one reader thread per accepted connection (two or three in the readers-per-conn configurations, looping or taking exactly one datagram each; every datagram must still reach one of them), optionally closing a connection (also from two threads at once) and sending again; backlog {1,2,128}, accept filter {none, reject-first}, batch read {off,2,3 with partial batches}; every interleaving within the deviation bound over the scheduler-visible fake socket",
 		Assumptions: []string{"OS socket and ipv4.PacketConn batching replaced by zzvsched/fakenet", "completeness is asserted only where nothing may be refused (backlog larger than the number of remotes, no concurrent Close)"}})
 	register(&Check{ID: "C12", YieldOnRelease: true,
 		Scenarios: func(tier string) []*explore.Scenario {
